@@ -1,5 +1,16 @@
 package interp
 
+import (
+	"fmt"
+	"go/types"
+	"reflect"
+	"strconv"
+	"strings"
+	"sync"
+
+	"gosym/sym"
+)
+
 // registerModelNatives wires the environment models: replacements by
 // interpreted Go-level models (package zzverif/model) and engine-native ones.
 func registerModelNatives(p *Program) {
@@ -10,10 +21,162 @@ func registerModelNatives(p *Program) {
 	m("context.TODO", "ContextBackground")
 	m("context.WithCancel", "ContextWithCancel")
 
+	// memfs
+	for real, model := range map[string]string{
+		"os.Lstat": "OsLstat", "os.Stat": "OsStat", "os.Readlink": "OsReadlink",
+		"os.Mkdir": "OsMkdir", "os.MkdirAll": "OsMkdirAll", "os.Symlink": "OsSymlink",
+		"os.Remove": "OsRemove", "os.RemoveAll": "OsRemoveAll", "os.Rename": "OsRename",
+		"os.Truncate": "OsTruncate", "os.Chmod": "OsChmod", "os.MkdirTemp": "OsMkdirTemp",
+		"io/ioutil.TempDir": "OsMkdirTemp", "os.Getwd": "OsGetwd", "os.ReadDir": "OsReadDir",
+		"io/ioutil.ReadDir": "IoutilReadDir", "path/filepath.Walk": "FilepathWalk", "path/filepath.Abs": "FilepathAbs",
+		"os.OpenFile": "OsOpenFile", "os.Open": "OsOpen", "os.Create": "OsCreate",
+		"os.ReadFile": "OsReadFile", "io/ioutil.ReadFile": "OsReadFile",
+		"os.WriteFile": "OsWriteFile", "io/ioutil.WriteFile": "OsWriteFile",
+		"(*os.File).Read": "FileRead", "(*os.File).ReadAt": "FileReadAt", "(*os.File).Write": "FileWrite",
+		"(*os.File).WriteString": "FileWriteString", "(*os.File).WriteAt": "FileWriteAt", "(*os.File).Seek": "FileSeek",
+		"(*os.File).Stat": "FileStat", "(*os.File).Truncate": "FileTruncate", "(*os.File).Sync": "FileSync",
+		"(*os.File).Close": "FileClose", "(*os.File).Name": "FileName", "(*os.File).Chmod": "FileChmod",
+		"(*os.File).Readdirnames": "FileReaddirnames", "(*os.File).Readdir": "FileReaddir",
+		"(*os.File).ReadFrom": "FileReadFrom", "(*os.File).WriteTo": "FileWriteTo",
+		"io.copyBuffer": "IoCopyBuffer",
+	} {
+		m(real, model)
+	}
+	N := p.natives
+	N["github.com/itchio/screw.IsWrongCase"] = func(r *Run, g *Goroutine, a []Value) Value { return false }
+	N["(syscall.Errno).Error"] = func(r *Run, g *Goroutine, a []Value) Value {
+		return "errno " + strconv.FormatUint(a[0].(uint64), 10)
+	}
+
+	// ---- protobuf (tag-faithful mini codec) --------------------------------------
+	N["github.com/golang/protobuf/proto.Marshal"] = func(r *Run, g *Goroutine, a []Value) Value {
+		b, err := r.protoMarshal(g, a[0].(Iface))
+		if err != "" {
+			return Tuple{Slice{}, r.newError(g, err)}
+		}
+		return Tuple{Slice{Data: b, Len: len(b)}, Iface{}}
+	}
+	N["github.com/golang/protobuf/proto.Unmarshal"] = func(r *Run, g *Goroutine, a []Value) Value {
+		s := a[0].(Slice)
+		if err := r.protoUnmarshal(g, s.Data[:s.Len], a[1].(Iface)); err != "" {
+			return r.newError(g, err)
+		}
+		return Iface{}
+	}
+	N["(*github.com/golang/protobuf/proto.Buffer).Unmarshal"] = func(r *Run, g *Goroutine, a []Value) Value {
+		// Buffer{buf []byte; idx int; deterministic bool}
+		bs := (*a[0].(*Value)).(Struct)
+		buf := bs[0].(Slice)
+		idx := int(bs[1].(uint64))
+		if idx > buf.Len {
+			idx = buf.Len
+		}
+		err := r.protoUnmarshal(g, buf.Data[idx:buf.Len], a[1].(Iface))
+		bs[1] = uint64(buf.Len)
+		if err != "" {
+			return r.newError(g, err)
+		}
+		return Iface{}
+	}
+	N["(*github.com/golang/protobuf/proto.Buffer).Marshal"] = func(r *Run, g *Goroutine, a []Value) Value {
+		bs := (*a[0].(*Value)).(Struct)
+		b, err := r.protoMarshal(g, a[1].(Iface))
+		if err != "" {
+			return r.newError(g, err)
+		}
+		buf := bs[0].(Slice)
+		nd := append(append([]Value{}, buf.Data[:buf.Len]...), b...)
+		bs[0] = Slice{Data: nd, Len: len(nd)}
+		return Iface{}
+	}
+	N["github.com/golang/protobuf/proto.Clone"] = func(r *Run, g *Goroutine, a []Value) Value {
+		in := a[0].(Iface)
+		p := in.V.(*Value)
+		if p == nil {
+			return in
+		}
+		cell := r.deepCopy(*p, map[*Value]*Value{})
+		return Iface{T: in.T, V: &cell}
+	}
+	// generated Reset()/ProtoReflect() bookkeeping
+	N["(google.golang.org/protobuf/internal/impl.Export).MessageStateOf"] = func(r *Run, g *Goroutine, a []Value) Value { return (*Value)(nil) }
+	N["(*google.golang.org/protobuf/internal/impl.MessageState).StoreMessageInfo"] = func(r *Run, g *Goroutine, a []Value) Value { return nil }
+	N["(google.golang.org/protobuf/internal/impl.Export).Pointer"] = func(r *Run, g *Goroutine, a []Value) Value { return (*Value)(nil) }
+	N["google.golang.org/protobuf/internal/impl.Export.Pointer"] = N["(google.golang.org/protobuf/internal/impl.Export).Pointer"]
+
+	for _, n := range []string{"RegisterType", "RegisterEnum", "RegisterFile", "RegisterMapType", "RegisterExtension"} {
+		N["github.com/golang/protobuf/proto."+n] = func(r *Run, g *Goroutine, a []Value) Value { return nil }
+	}
+
+	// ---- gob ----------------------------------------------------------------------
+	N["encoding/gob.Register"] = func(r *Run, g *Goroutine, a []Value) Value {
+		if iv, ok := a[0].(Iface); ok && iv.T != nil {
+			r.gobRegistered()[iv.T.String()] = true
+		}
+		return nil
+	}
+	N[rtPkg+".CloneViaGob"] = func(r *Run, g *Goroutine, a []Value) Value {
+		dst, src := a[0].(Iface), a[1].(Iface)
+		dp, sp := dst.V.(*Value), src.V.(*Value)
+		if dp == nil || sp == nil {
+			return r.newError(g, "gob: nil pointer")
+		}
+		elem := src.T.Underlying().(*types.Pointer).Elem()
+		v, err := r.gobCopy(elem, *sp)
+		if err != "" {
+			return r.newError(g, err)
+		}
+		*dp = v
+		return Iface{}
+	}
+
+	// ---- misc reflection-based helpers ------------------------------------------------
+	N["github.com/mitchellh/copystructure.Copy"] = func(r *Run, g *Goroutine, a []Value) Value {
+		in := a[0].(Iface)
+		return Tuple{Iface{T: in.T, V: r.deepCopy(in.V, map[*Value]*Value{})}, Iface{}}
+	}
+	N["github.com/go-ozzo/ozzo-validation.ValidateStruct"] = func(r *Run, g *Goroutine, a []Value) Value { return Iface{} }
+	N["github.com/go-ozzo/ozzo-validation.Field"] = func(r *Run, g *Goroutine, a []Value) Value { return (*Value)(nil) }
+	N["github.com/itchio/headway/united.FormatBytes"] = func(r *Run, g *Goroutine, a []Value) Value { return "<bytes>" }
+	N["github.com/itchio/headway/united.FormatDuration"] = func(r *Run, g *Goroutine, a []Value) Value { return "<duration>" }
+	N["github.com/itchio/headway/united.FormatBPS"] = func(r *Run, g *Goroutine, a []Value) Value { return "<bps>" }
+	N[rtPkg+".Model"] = func(r *Run, g *Goroutine, a []Value) Value {
+		fn := r.P.Func(modelPkg, str(a[0]))
+		if fn == nil {
+			r.abort("rt.Model: no model function %s", str(a[0]))
+		}
+		args := a[1].(Slice)
+		res := r.callFunction(g, g.top, fn, append([]Value{}, args.Data[:args.Len]...))
+		if res == nil {
+			return uint64(0)
+		}
+		return res
+	}
+	N[rtPkg+".TempDir"] = func(r *Run, g *Goroutine, a []Value) Value {
+		r.tmpCount++
+		name := fmt.Sprintf("/v%d", r.tmpCount)
+		fn := r.P.Func(modelPkg, "OsMkdirAll")
+		r.callFunction(g, g.top, fn, []Value{name, uint64(0o755)})
+		return name
+	}
+	N[rtPkg+".SetParam"] = func(r *Run, g *Goroutine, a []Value) Value {
+		if r.ownParams == false {
+			np := map[string]int{}
+			for k, v := range r.params {
+				np[k] = v
+			}
+			r.params = np
+			r.ownParams = true
+		}
+		r.params[str(a[0])] = int(int64(a[1].(uint64)))
+		return nil
+	}
+
 	p.initOverride["errors"] = nil // only errorType (reflectlite) and ErrUnsupported
+	p.initOverride["os"] = p.funcByFullName(modelPkg + ".InitOS")
 	for _, path := range []string{
 		"io", "bytes", "bufio", "sort", "strings", "context", "io/fs", "internal/oserror",
-		"encoding/binary", "container/list", "path/filepath", "path", "hash", "math/bits",
+		"encoding/binary", "container/list", "path/filepath", "path", "hash", "math/bits", "io/ioutil",
 		"github.com/pkg/errors",
 		"github.com/itchio/lake", "github.com/itchio/lake/tlc", "github.com/itchio/lake/pools",
 		"github.com/itchio/lake/pools/fspool", "github.com/itchio/lake/pools/nullpool", "github.com/itchio/lake/pools/zippool",
@@ -24,4 +187,511 @@ func registerModelNatives(p *Program) {
 	} {
 		p.initAllow[path] = true
 	}
+}
+
+func (r *Run) gobRegistered() map[string]bool {
+	if m, ok := r.side["gob-registry"]; ok {
+		return m.(map[string]bool)
+	}
+	m := map[string]bool{}
+	r.side["gob-registry"] = m
+	return m
+}
+
+// ---- protobuf model ----------------------------------------------------------------
+
+type protoField struct {
+	index int    // struct field index
+	num   uint64 // field number
+	wire  string // varint | bytes | fixed32 | fixed64 | zigzag32 | zigzag64
+	rep   bool
+	typ   types.Type
+}
+
+var protoFieldCache = map[*types.Struct][]protoField{}
+var protoMu sync.Mutex
+
+func protoFields(st *types.Struct) []protoField {
+	// (called under the per-worker interpreter; guard with the program mutex-free map is fine
+	// because entries are immutable once computed, but writes must be serialised)
+	protoMu.Lock()
+	defer protoMu.Unlock()
+	if f, ok := protoFieldCache[st]; ok {
+		return f
+	}
+	var out []protoField
+	for i := 0; i < st.NumFields(); i++ {
+		tag := reflect.StructTag(st.Tag(i)).Get("protobuf")
+		if tag == "" {
+			continue
+		}
+		parts := strings.Split(tag, ",")
+		if len(parts) < 3 {
+			continue
+		}
+		num, _ := strconv.ParseUint(parts[1], 10, 64)
+		out = append(out, protoField{index: i, num: num, wire: parts[0], rep: parts[2] == "rep", typ: st.Field(i).Type()})
+	}
+	protoFieldCache[st] = out
+	return out
+}
+
+func wireTypeOf(kind string) uint64 {
+	switch kind {
+	case "varint", "zigzag32", "zigzag64":
+		return 0
+	case "fixed64":
+		return 1
+	case "bytes":
+		return 2
+	case "fixed32":
+		return 5
+	}
+	return 7
+}
+
+func appendUvarint(b []Value, v uint64) []Value {
+	for v >= 0x80 {
+		b = append(b, uint64(byte(v)|0x80))
+		v >>= 7
+	}
+	return append(b, uint64(byte(v)))
+}
+
+// int64Bytes renders an integer (any width) as 8 little-endian bytes of its
+// 64-bit extension (sign- or zero-extended according to the Go type).
+func (r *Run) int64Bytes(v Value, t types.Type) []Value {
+	k := intKindOf(t)
+	out := make([]Value, 8)
+	switch x := v.(type) {
+	case bool:
+		u := uint64(0)
+		if x {
+			u = 1
+		}
+		for i := range out {
+			out[i] = uint64(byte(u >> (8 * i)))
+		}
+	case uint64:
+		for i := range out {
+			out[i] = uint64(byte(x >> (8 * i)))
+		}
+	case *sym.Term:
+		t64 := x
+		if x.W == 0 {
+			t64 = r.C.BoolToBV(x, 64)
+		} else if x.W < 64 {
+			if k.signed {
+				t64 = r.C.SExt(x, 64)
+			} else {
+				t64 = r.C.ZExt(x, 64)
+			}
+		}
+		for i := range out {
+			out[i] = simp(r.C.Extract(t64, uint8(8*i), 8), ikind{8, false})
+		}
+	default:
+		for i := range out {
+			out[i] = uint64(0)
+		}
+	}
+	return out
+}
+
+func (r *Run) protoMarshal(g *Goroutine, msg Iface) ([]Value, string) {
+	p, ok := msg.V.(*Value)
+	if !ok {
+		return nil, "proto: Marshal called with non-pointer message"
+	}
+	if p == nil {
+		return nil, "proto: Marshal called with nil"
+	}
+	st, ok := msg.T.Underlying().(*types.Pointer).Elem().Underlying().(*types.Struct)
+	if !ok {
+		return nil, "proto: not a struct message"
+	}
+	return r.protoEncodeStruct(g, st, (*p).(Struct)), ""
+}
+
+func (r *Run) protoEncodeStruct(g *Goroutine, st *types.Struct, s Struct) []Value {
+	var out []Value
+	for _, f := range protoFields(st) {
+		v := s[f.index]
+		key := f.num<<3 | wireTypeOf(f.wire)
+		switch f.wire {
+		case "varint", "zigzag32", "zigzag64", "fixed32", "fixed64":
+			// proto3: zero values are not emitted; a symbolic value is always emitted
+			switch x := v.(type) {
+			case uint64:
+				if x == 0 {
+					continue
+				}
+			case bool:
+				if !x {
+					continue
+				}
+			}
+			out = appendUvarint(out, key)
+			out = append(out, r.int64Bytes(v, f.typ)...)
+		case "bytes":
+			emit := func(payload []Value) {
+				out = appendUvarint(out, key)
+				out = appendUvarint(out, uint64(len(payload)))
+				out = append(out, payload...)
+			}
+			switch x := v.(type) {
+			case string:
+				if x != "" {
+					emit(stringToSlice(x).Data)
+				}
+			case Slice:
+				if f.rep {
+					// repeated messages ([]*T) or repeated bytes/strings
+					for i := 0; i < x.Len; i++ {
+						switch e := x.Data[i].(type) {
+						case *Value:
+							if e == nil {
+								emit(nil)
+								continue
+							}
+							est := f.typ.Underlying().(*types.Slice).Elem().Underlying().(*types.Pointer).Elem().Underlying().(*types.Struct)
+							emit(r.protoEncodeStruct(g, est, (*e).(Struct)))
+						case string:
+							emit(stringToSlice(e).Data)
+						case Slice:
+							emit(e.Data[:e.Len])
+						}
+					}
+				} else if x.Len > 0 {
+					emit(append([]Value{}, x.Data[:x.Len]...))
+				}
+			case *Value:
+				if x != nil {
+					est := f.typ.Underlying().(*types.Pointer).Elem().Underlying().(*types.Struct)
+					emit(r.protoEncodeStruct(g, est, (*x).(Struct)))
+				}
+			}
+		}
+	}
+	return out
+}
+
+// concreteByte: message structure bytes (keys, lengths) must be concrete.
+func (r *Run) concreteByte(g *Goroutine, v Value) uint64 {
+	switch x := v.(type) {
+	case uint64:
+		return x
+	case *sym.Term:
+		return r.Concretize(x, r.siteOf(g)+" proto structure byte")
+	}
+	return 0
+}
+
+func (r *Run) readUvarint(g *Goroutine, b []Value, pos *int) (uint64, bool) {
+	var x uint64
+	var s uint
+	for i := 0; i < 10; i++ {
+		if *pos >= len(b) {
+			return 0, false
+		}
+		c := r.concreteByte(g, b[*pos])
+		*pos++
+		if c < 0x80 {
+			return x | c<<s, true
+		}
+		x |= (c & 0x7f) << s
+		s += 7
+	}
+	return 0, false
+}
+
+func (r *Run) protoUnmarshal(g *Goroutine, b []Value, msg Iface) string {
+	p, ok := msg.V.(*Value)
+	if !ok || p == nil {
+		return "proto: Unmarshal called with nil"
+	}
+	st, ok := msg.T.Underlying().(*types.Pointer).Elem().Underlying().(*types.Struct)
+	if !ok {
+		return "proto: not a struct message"
+	}
+	return r.protoDecodeStruct(g, st, (*p).(Struct), b)
+}
+
+const protoErr = "proto: cannot parse invalid wire-format data"
+
+func (r *Run) protoDecodeStruct(g *Goroutine, st *types.Struct, s Struct, b []Value) string {
+	fields := protoFields(st)
+	pos := 0
+	for pos < len(b) {
+		key, ok := r.readUvarint(g, b, &pos)
+		if !ok {
+			return protoErr
+		}
+		num, wt := key>>3, key&7
+		if num == 0 {
+			return protoErr
+		}
+		var f *protoField
+		for i := range fields {
+			if fields[i].num == num && wireTypeOf(fields[i].wire) == wt {
+				f = &fields[i]
+			}
+		}
+		switch wt {
+		case 0, 1, 5:
+			// model: every fixed-size / varint scalar occupies 8 bytes
+			if pos+8 > len(b) {
+				return "unexpected EOF"
+			}
+			raw := b[pos : pos+8]
+			pos += 8
+			if f == nil {
+				continue // unknown field: skipped
+			}
+			s[f.index] = r.intFromBytes(raw, f.typ)
+		case 2:
+			n, ok := r.readUvarint(g, b, &pos)
+			if !ok {
+				return protoErr
+			}
+			if n > uint64(len(b)-pos) {
+				return "unexpected EOF"
+			}
+			payload := b[pos : pos+int(n)]
+			pos += int(n)
+			if f == nil {
+				continue
+			}
+			ft := f.typ
+			if f.rep {
+				et := ft.Underlying().(*types.Slice).Elem()
+				var elem Value
+				switch eu := et.Underlying().(type) {
+				case *types.Pointer:
+					est := eu.Elem().Underlying().(*types.Struct)
+					cell := zero(eu.Elem())
+					if err := r.protoDecodeStruct(g, est, cell.(Struct), payload); err != "" {
+						return err
+					}
+					elem = &cell
+				case *types.Basic:
+					elem = r.bytesToString(Slice{Data: payload, Len: len(payload)})
+				default:
+					elem = Slice{Data: append([]Value{}, payload...), Len: len(payload)}
+				}
+				old := s[f.index].(Slice)
+				nd := append(append([]Value{}, old.Data[:old.Len]...), elem)
+				s[f.index] = Slice{Data: nd, Len: len(nd)}
+				continue
+			}
+			switch fu := ft.Underlying().(type) {
+			case *types.Basic: // string
+				s[f.index] = r.bytesToString(Slice{Data: payload, Len: len(payload)})
+			case *types.Slice: // []byte
+				d := append([]Value{}, payload...)
+				s[f.index] = Slice{Data: d, Len: len(d)}
+			case *types.Pointer:
+				est := fu.Elem().Underlying().(*types.Struct)
+				var cell Value
+				if old, ok := s[f.index].(*Value); ok && old != nil {
+					cell = *old
+				} else {
+					cell = zero(fu.Elem())
+				}
+				if err := r.protoDecodeStruct(g, est, cell.(Struct), payload); err != "" {
+					return err
+				}
+				s[f.index] = &cell
+			}
+		default:
+			return protoErr
+		}
+	}
+	return ""
+}
+
+// intFromBytes rebuilds an integer of Go type t from 8 little-endian bytes.
+func (r *Run) intFromBytes(raw []Value, t types.Type) Value {
+	allConc := true
+	var u uint64
+	for i, b := range raw {
+		c, ok := b.(uint64)
+		if !ok {
+			allConc = false
+			break
+		}
+		u |= c << (8 * i)
+	}
+	if isBoolType(t) {
+		if allConc {
+			return u != 0
+		}
+	}
+	k := intKindOf(t)
+	if allConc {
+		if k.w == 0 {
+			return u != 0
+		}
+		return k.norm(u)
+	}
+	// symbolic: concat the bytes (high first)
+	var acc *sym.Term
+	for i := 7; i >= 0; i-- {
+		bt := r.term(raw[i], ikind{8, false})
+		if acc == nil {
+			acc = bt
+		} else {
+			acc = r.C.Concat(acc, bt)
+		}
+	}
+	if isBoolType(t) {
+		return simpBool(r.C.Not(r.C.Eq(acc, r.C.Const(0, 64))))
+	}
+	if k.w < 64 {
+		acc = r.C.Extract(acc, 0, k.w)
+	}
+	return simp(acc, k)
+}
+
+// ---- deep copies -------------------------------------------------------------------------
+
+// deepCopy clones a value graph (pointers, slices, maps), preserving sharing.
+func (r *Run) deepCopy(v Value, seen map[*Value]*Value) Value {
+	switch x := v.(type) {
+	case *Value:
+		if x == nil {
+			return x
+		}
+		if n, ok := seen[x]; ok {
+			return n
+		}
+		n := new(Value)
+		seen[x] = n
+		*n = r.deepCopy(*x, seen)
+		return n
+	case Struct:
+		n := make(Struct, len(x))
+		for i, f := range x {
+			n[i] = r.deepCopy(f, seen)
+		}
+		return n
+	case Array:
+		n := make(Array, len(x))
+		for i, f := range x {
+			n[i] = r.deepCopy(f, seen)
+		}
+		return n
+	case Slice:
+		if x.Data == nil {
+			return x
+		}
+		d := make([]Value, x.Len)
+		for i := 0; i < x.Len; i++ {
+			d[i] = r.deepCopy(x.Data[i], seen)
+		}
+		return Slice{Data: d, Len: x.Len}
+	case *Map:
+		if x == nil {
+			return x
+		}
+		n := newMap()
+		for i := range x.keys {
+			if x.live[i] {
+				r.mapSet(nil, n, x.keys[i], r.deepCopy(x.vals[i], seen))
+			}
+		}
+		return n
+	case Iface:
+		return Iface{T: x.T, V: r.deepCopy(x.V, seen)}
+	}
+	return v
+}
+
+// gobCopy models a gob encode/decode round trip of a value of static type t.
+func (r *Run) gobCopy(t types.Type, v Value) (Value, string) {
+	switch u := t.Underlying().(type) {
+	case *types.Struct:
+		s := v.(Struct)
+		n := make(Struct, len(s))
+		for i := range s {
+			f := u.Field(i)
+			if !f.Exported() {
+				n[i] = zero(f.Type())
+				continue
+			}
+			c, err := r.gobCopy(f.Type(), s[i])
+			if err != "" {
+				return nil, err
+			}
+			n[i] = c
+		}
+		return n, ""
+	case *types.Pointer:
+		p := v.(*Value)
+		if p == nil {
+			return p, ""
+		}
+		c, err := r.gobCopy(u.Elem(), *p)
+		if err != "" {
+			return nil, err
+		}
+		return &c, ""
+	case *types.Slice:
+		s := v.(Slice)
+		if s.Len == 0 {
+			return Slice{}, ""
+		}
+		d := make([]Value, s.Len)
+		for i := 0; i < s.Len; i++ {
+			c, err := r.gobCopy(u.Elem(), s.Data[i])
+			if err != "" {
+				return nil, err
+			}
+			d[i] = c
+		}
+		return Slice{Data: d, Len: s.Len}, ""
+	case *types.Array:
+		a := v.(Array)
+		n := make(Array, len(a))
+		for i := range a {
+			c, err := r.gobCopy(u.Elem(), a[i])
+			if err != "" {
+				return nil, err
+			}
+			n[i] = c
+		}
+		return n, ""
+	case *types.Map:
+		m := v.(*Map)
+		if m == nil || m.n == 0 {
+			return (*Map)(nil), ""
+		}
+		n := newMap()
+		for i := range m.keys {
+			if m.live[i] {
+				c, err := r.gobCopy(u.Elem(), m.vals[i])
+				if err != "" {
+					return nil, err
+				}
+				r.mapSet(nil, n, m.keys[i], c)
+			}
+		}
+		return n, ""
+	case *types.Interface:
+		iv := v.(Iface)
+		if iv.T == nil {
+			return iv, ""
+		}
+		if !r.gobRegistered()[iv.T.String()] {
+			return nil, "gob: type not registered for interface: " + iv.T.String()
+		}
+		c, err := r.gobCopy(iv.T, iv.V)
+		if err != "" {
+			return nil, err
+		}
+		return Iface{T: iv.T, V: c}, ""
+	case *types.Chan, *types.Signature:
+		return zero(t), ""
+	}
+	return v, ""
 }
